@@ -319,6 +319,7 @@ def check_entities(ctx):
     where = ctx.where(f)
     obs = []
     found = {}
+    scalars = {}
     for n in sir.walk(f.body):
         if n.get("k") != "if":
             continue
@@ -328,9 +329,28 @@ def check_entities(ctx):
         prefix = lits[0]
         radix = None
         start = None
+        scalar_here = False
         for x in sir.walk(n["then"], into_closures=True):
+            if x.get("k") == "call" and (sir.call_path(x) or "").endswith("from_u32"):
+                scalar_here = True
             if x.get("k") == "call" and (sir.call_path(x) or "").endswith("from_str_radix") and len(x["args"]) == 2:
                 radix = int(x["args"][1]["v"]) if x["args"][1].get("k") == "lit" else None
+            elif x.get("k") == "call" and not (sir.call_path(x) or "").endswith("from_str_radix"):
+                # a private helper that does the conversion: its radix parameter is bound to this call's argument
+                hs = [g for g in tc.fns if g.name == sir.call_name(x) and g.body and "entities" in g.module and g is not f]
+                if len(hs) == 1:
+                    pn = hs[0].param_names()
+                    for y in sir.walk(hs[0].body):
+                        if y.get("k") == "call" and (sir.call_path(y) or "").endswith("from_str_radix") and len(y["args"]) == 2:
+                            ra = sir.expr_str(sir.strip_ref(y["args"][1]))
+                            if ra in pn and pn.index(ra) < len(x["args"]) and x["args"][pn.index(ra)].get("k") == "lit":
+                                radix = int(x["args"][pn.index(ra)]["v"])
+                            elif y["args"][1].get("k") == "lit":
+                                radix = int(y["args"][1]["v"])
+                        if y.get("k") == "call" and (sir.call_path(y) or "").endswith("from_u32"):
+                            scalar_here = True
+        scalars[prefix] = scalar_here
+        for x in sir.walk(n["then"], into_closures=True):
             if x.get("k") == "index" and x["idx"].get("k") == "range" and x["idx"].get("from") is not None and x["idx"]["from"].get("k") == "lit":
                 start = int(x["idx"]["from"]["v"])
         guard = None
@@ -343,8 +363,8 @@ def check_entities(ctx):
         # `&` prefix digits `;` : the shortest reference has one digit, i.e. len == start + 2, so the guard must be len > start + 1
         obs.append(ob("C12.entity/%s" % prefix, r == wr and s == ws and g == ws + 1, where,
                       "`&%s..;` decoded with radix %s from byte offset %s under the guard len > %s (expected radix %d, offset %d, guard len > %d so that one-digit references decode)" % (prefix, r, s, g, wr, ws, ws + 1)))
-    uses_from_u32 = sum(1 for x in sir.walk(f.body) if x.get("k") == "call" and (sir.call_path(x) or "").endswith("from_u32"))
-    obs.append(ob("C12.entity/scalar", uses_from_u32 >= 2, where, "numeric references go through char::from_u32 (surrogates and out-of-range values rejected): %d uses" % uses_from_u32))
+    oks = scalars.get("#x") is True and scalars.get("#") is True
+    obs.append(ob("C12.entity/scalar", oks, where, "both numeric forms go through char::from_u32 (surrogates and out-of-range values rejected): %s" % scalars))
     return obs
 
 
